@@ -239,7 +239,9 @@ func stringsUpTo(alpha []string, k int) []string {
 var deviceAlphabet = []string{"vendor.com/class=dev0", "v/c=1", "vendor.com/class=dev2", "dev", "", "vendor.com/class=a,b", " vendor.com/class=x", "vendor.com/class=y ", "vendor.com/cl ass=z", "vendor.com/class",
 	// not fully qualified either: a non-ASCII character (whose low byte, or low 7 bits, is an ASCII letter or digit) inside the name, the class, the vendor
 	"vendor.com/class=dev0,vendor.com/class=dev2", // one string holding two qualified names: not a qualified name
-	"vendor.com/class=d\u0141v", "vendor.com/cl\u0161ss=x", "v\u0161ndor.com/class=x", "vendor.com/class=d\u00e1v"}
+	"vendor.com/class=d\u0141v", "vendor.com/cl\u0161ss=x", "v\u0161ndor.com/class=x", "vendor.com/class=d\u00e1v",
+	// the kind of another element of the alphabet followed directly by a name (no "="), by "=" alone, by "==name"
+	"vendor.com/classdev1", "v/c1", "vendor.com/class=", "vendor.com/class==dev1"}
 
 func deviceLists(max int) [][]string {
 	var out [][]string
